@@ -2,7 +2,15 @@
 
 ID = "C09"
 HARNESSES = [dict(name="aaa", pkg="./internal/aaa/", test="TestVerifC09", timeout=900,
+                  files=[("internal/aaa/zz_verif_c09_test.go", "harness/C09/zz_verif_c09_test.go")]),
+             # the same harness built with the race detector, for the histories marked "Sr" (forced-overlap groups
+             # of Released / tick notifications); a reported data race fails the run (no-failing-input-found)
+             dict(name="aaa_race", pkg="./internal/aaa/", test="TestVerifC09", timeout=900, race=True,
                   files=[("internal/aaa/zz_verif_c09_test.go", "harness/C09/zz_verif_c09_test.go")])]
+
+
+def route(case):
+    return "aaa_race" if case.startswith("Sr ") else "aaa"
 # first variant: all three repairs (the theorems are proved for it); last: the code as found.
 # c = counter regress undetected, s = Stop without open accounting, a = Active overwrites a restored checkpoint
 VARIANTS = ["repaired", "d_c", "d_s", "d_a", "d_cs", "d_ca", "d_sa", "defective"]
@@ -11,7 +19,8 @@ SIG = {"c": "applyVPPCounters-regress-compared-with-zero-baseline",
        "s": "handleSessionRelease-stop-without-accounting-entry",
        "a": "handleSessionLifecycle-start-over-restored-checkpoint"}
 RULE = ("One case = one history of the real AAA component with 1-4 sessions (two of them share an interim bucket; "
-        "IPoE and PPPoE payloads): lifecycle-active (repeated), restored (same or renumbered interface), released "
+        "IPoE, PPPoE and l2gw payloads; l2gw sessions read the l2gw stats segment - access and handoff entry - on a tick, "
+        "with entries missing / segment unavailable / segment restarted): lifecycle-active (repeated), restored (same or renumbered interface), released "
         "(repeated, before any start), bucket ticks (own bucket, foreign bucket, per-session Accounting-Response "
         "failures), process restart (new component over the same opdb, loadAcctSessions), orphan prune before/after "
         "the deadline. Dataplane readings per interface follow named classes: monotone growth, equal, reset to 0 / to "
@@ -19,7 +28,12 @@ RULE = ("One case = one history of the real AAA component with 1-4 sessions (two
         "2^32 and 2^63..2^64-1 (u64 wrap). A degenerate stream adds histories starting with released/tick/restart. "
         "Compared exactly: every Start/Interim/Stop call with its four counters and success flag, the final cache / "
         "bucket / checkpoint state, and the per-session verdict of the property (bracketing, stops, monotone) computed "
-        "independently in Go on the observed calls. Non-trivial: at least one Interim and a Stop or a restart. "
+        "independently in Go on the observed calls. Forced-overlap histories: a group of notifications (duplicated "
+        "Released, Released + tick, Released + one Active/Restored) is delivered from one goroutine each while the "
+        "stats source blocks every handler at its snapshot read until all handlers of the group have reached it or "
+        "returned; groups of Released/tick have a schedule-independent outcome and are compared exactly (also under "
+        "the race detector), groups with Active/Restored are judged by the Start/Stop counts every interleaving "
+        "allows; each such history is run 5 times and must repeat. Non-trivial: at least one Interim and a Stop or a restart. "
         "Distinct: by case text.")
 TRUSTED = ["goroutines spawned by one notification (Start/Stop/Update calls, checkpoint Put/Delete) are awaited before "
            "the next notification is delivered: reordering by the scheduler is outside the model",
@@ -28,7 +42,8 @@ ASSUMPTIONS = ["per-session independence: session ids are distinct strings; the 
                "per-session machines (C09_component_is_product)",
                "monotonicity is claimed while the u64 cumulative does not wrap (lrun_wraps = false) and while the orphan "
                "prune deadline does not pass for a live session (no_prune)",
-               "L2GW sessions (separate stats segment) are not exercised"]
+               "orderings between goroutines of one notification and the next are not explored; only the forced overlap of the "
+               "handlers of one group is"]
 
 POOL = [("s7", 7), ("s10", 7), ("s2", 0), ("s3", 11)]
 IFX = [5, 6, 8, 9]
@@ -36,11 +51,18 @@ BIG = [2 ** 32 - 1, 2 ** 32, 2 ** 32 + 12345, 2 ** 63, 2 ** 64 - 1, 2 ** 64 - 10
 
 
 def snap_tok(items):
-    if items is None:
-        return "-"
-    if not items:
-        return "e"
-    return "+".join(":".join(str(x) for x in it) for it in items)
+    """items: interface table, or (interface table, l2gw segment)"""
+    l2 = None
+    if isinstance(items, tuple):
+        items, l2 = items
+
+    def one(t):
+        if t is None:
+            return "-"
+        if not t:
+            return "e"
+        return "+".join(":".join(str(x) for x in it) for it in t)
+    return one(items) if l2 is None else one(items) + "|" + one(l2)
 
 
 class Plane:
@@ -49,6 +71,8 @@ class Plane:
     def __init__(self, rng, big):
         self.rng = rng
         self.c = {i: [0, 0, 0, 0] for i in IFX}
+        self.g = {i: [0, 0] for i in IFX}          # l2gw stats segment: entry index -> [bytes, packets]
+        self.l2gw = False                          # the case has an l2gw session: snapshots carry the segment
         self.big = big
         self.classes = []
 
@@ -84,8 +108,43 @@ class Plane:
             for j in range(4):
                 c[j] %= 2 ** 64
             self.classes.append(k)
+        for i in IFX:
+            r = rng.random()
+            g = self.g[i]
+            if r < 0.6:
+                g[0] += rng.choice([0, 64, 1500, 10 ** 6])
+                g[1] += rng.choice([0, 1, 10])
+            elif r < 0.7:
+                pass
+            elif r < 0.8:
+                self.g[i] = [0, 0]
+                self.classes.append("l2gw_reset0")
+            elif r < 0.92:
+                self.g[i] = [rng.randint(0, g[0]), rng.randint(0, g[1])]
+                self.classes.append("l2gw_reset_smaller")
+            elif self.big:
+                g[rng.randrange(2)] = rng.choice(BIG)
+            self.g[i] = [x % 2 ** 64 for x in self.g[i]]
 
     def snapshot(self):
+        ifs = self.if_snapshot()
+        if not self.l2gw and self.rng.random() < 0.97:
+            return ifs
+        rng = self.rng
+        r = rng.random()
+        if r < 0.08:
+            return (ifs, None)
+        if r < 0.12:
+            return (ifs, [])
+        seg = []
+        for i in IFX:
+            if rng.random() < 0.15:
+                self.classes.append("l2gw_entry_missing")
+                continue
+            seg.append([i] + list(self.g[i]))
+        return (ifs, seg)
+
+    def if_snapshot(self):
         rng = self.rng
         r = rng.random()
         if r < 0.06:
@@ -111,9 +170,17 @@ class Plane:
 def gen_one(rng, nops, big, degenerate=False):
     k = rng.choice([1, 1, 2, 2, 3, 4])
     sess = POOL[:k] if rng.random() < 0.7 else rng.sample(POOL, k)
-    head = ["S", str(k)] + ["%s:%d:%s" % (sid, b, rng.choice("ip")) for sid, b in sess]
+    tys = [rng.choice("iippgg") for _ in sess]
+    head = ["S", str(k)] + ["%s:%d:%s" % (sid, b, t) for (sid, b), t in zip(sess, tys)]
     pl = Plane(rng, big)
+    pl.l2gw = "g" in tys
     cur = {j: rng.choice(IFX) for j in range(k)}
+    hof = {j: rng.choice(IFX) for j in range(k)}
+
+    def ann(kind, j):
+        if tys[j] == "g" or rng.random() < 0.1:
+            return "%s,%d,%d,%d" % (kind, j, cur[j], hof[j])
+        return "%s,%d,%d" % (kind, j, cur[j])
     ops = []
     if degenerate:
         ops.append(rng.choice(["X,0,e", "T,%d,0,e" % sess[0][1], "B", "P,1", "R,0,5", "X,0,-"]))
@@ -121,15 +188,17 @@ def gen_one(rng, nops, big, degenerate=False):
         r = rng.random()
         j = rng.randrange(k)
         if r < 0.14:
-            ops.append("A,%d,%d" % (j, cur[j]))
+            ops.append(ann("A", j))
             if rng.random() < 0.3:
-                ops.append("A,%d,%d" % (j, cur[j]))
+                ops.append(ann("A", j))
         elif r < 0.24:
             if rng.random() < 0.5:
                 cur[j] = rng.choice(IFX)          # renumbered
-            ops.append("R,%d,%d" % (j, cur[j]))
+                if rng.random() < 0.5:
+                    hof[j] = rng.choice(IFX)
+            ops.append(ann("R", j))
             if rng.random() < 0.2:
-                ops.append("R,%d,%d" % (j, cur[j]))
+                ops.append(ann("R", j))
         elif r < 0.33:
             pl.evolve()
             ops.append("X,%d,%s" % (j, snap_tok(pl.snapshot())))
@@ -150,10 +219,66 @@ def gen_one(rng, nops, big, degenerate=False):
                     if rng.random() < 0.8:
                         if rng.random() < 0.3:
                             cur[jj] = rng.choice(IFX)
-                        ops.append(("R,%d,%d" if rng.random() < 0.8 else "A,%d,%d") % (jj, cur[jj]))
+                        ops.append(ann("R" if rng.random() < 0.8 else "A", jj))
         else:
             ops.append("P,%d" % rng.choice([0, 1, 1]))
     return " ".join(head + ops), pl.classes
+
+
+def gen_conc(rng, racy):
+    """history = sequential prefix, one forced-overlap group, (deterministic groups only) a sequential suffix.
+    Deterministic group: 2-4 duplicated Released of one session, optionally Released of other sessions and one tick.
+    The tick's bucket never holds two sessions of the case when one of them is released in the group: removing an
+    id from the middle of a bucket slice while a tick iterates its stale copy is schedule dependent (see notes).
+    Racy group (last op): Released x1-3 plus exactly one Active or Restored of the same session."""
+    k = rng.choice([1, 1, 2, 3])
+    sess = rng.sample(POOL, k)
+    tys = [rng.choice("iippg") for _ in sess]
+    head = ["S", str(k)] + ["%s:%d:%s" % (sid, b, t) for (sid, b), t in zip(sess, tys)]
+    pl = Plane(rng, False)
+    pl.l2gw = "g" in tys
+    ops = []
+    j = rng.randrange(k)
+    ifx = {x: rng.choice(IFX) for x in range(k)}
+    for x in range(k):
+        r = rng.random()
+        if r < 0.7:
+            ops.append("A,%d,%d" % (x, ifx[x]))
+        elif r < 0.9:
+            ops.append("R,%d,%d" % (x, ifx[x]))
+    for _ in range(rng.randrange(0, 4)):
+        pl.evolve()
+        x = rng.randrange(k)
+        ops.append("T,%d,%d,%s" % (sess[x][1], rng.choice([0, 0, 0, 1 << x]), snap_tok(pl.snapshot())))
+    if rng.random() < 0.15:
+        ops.append("B")
+        if rng.random() < 0.7:
+            ops.append("R,%d,%d" % (j, ifx[j]))
+    pl.evolve()
+    members = ["X,%d" % j] * rng.choice([2, 2, 3, 4])
+    if racy:
+        members = ["X,%d" % j] * rng.choice([1, 2, 3])
+        members.append(rng.choice(["A,%d,%d", "R,%d,%d"]) % (j, rng.choice(IFX)))
+    else:
+        released = {j}
+        for x in range(k):
+            if x != j and rng.random() < 0.4:
+                members += ["X,%d" % x] * rng.choice([1, 2])
+                released.add(x)
+        if rng.random() < 0.5:
+            ok = [b for b in (0, 3, 7, 11)
+                  if not any(sess[x][1] == b and sum(1 for y in range(k) if sess[y][1] == b) > 1 for x in released)]
+            if ok:
+                members.append("T,%d,%d" % (rng.choice(ok), 0))
+    rng.shuffle(members)
+    ops.append("C/%s/%s" % (snap_tok(pl.snapshot()), "/".join(members)))
+    if not racy:
+        for _ in range(rng.randrange(0, 3)):
+            pl.evolve()
+            x = rng.randrange(k)
+            ops.append(rng.choice(["T,%d,0,%s" % (sess[x][1], snap_tok(pl.snapshot())), "A,%d,%d" % (x, ifx[x]),
+                                   "X,%d,%s" % (x, snap_tok(pl.snapshot()))]))
+    return " ".join(head + ops)
 
 
 def gen_cases(rng, tier, budget):
@@ -171,11 +296,27 @@ def gen_cases(rng, tier, budget):
               "S 1 s7:7:i A,0,5 T,7,0,5:400:40:4:1 B P,1 R,0,5 T,7,0,5:3:3:3:3",
               "S 1 s7:7:i R,0,5 T,7,1,5:9:9:9:9 B A,0,5 T,7,0,5:10:10:10:10 X,0,e",
               "S 2 s7:7:i s10:7:p A,0,5 A,1,5 T,7,2,5:10:20:30:40 T,7,1,5:5:50:5:50 X,1,5:1:1:1:1 T,7,0,5:2:2:2:2 X,0,e"]
+    cases += ["S 1 s7:7:g A,0,3,4 T,7,0,-|3:500:5+4:900:9 T,7,0,-|3:40:1+4:60:2 B R,0,3,4 T,7,0,e|4:100:3 X,0,3:7:7:7:7|3:1:1",
+              "S 2 s7:7:g s10:7:i A,0,3,4 A,1,3 T,7,0,3:10:20:30:40|- T,7,0,3:11:21:31:41|e T,7,0,3:12:22:32:42|4:9:9 B A,0,3,4 X,0,- X,1,3:1:1:1:1",
+              "S 1 s2:0:g R,0,1,2 T,0,0,e|1:5:1+2:6:2 B T,0,0,e|1:7:1 R,0,1,2 X,0,1:9:9:9:9|1:50:5"]
     for i in range(n):
         r = rng.random()
         nops = rng.choice([3, 5, 8, 12, 18, 25]) if tier == "quick" else rng.choice([3, 6, 10, 16, 24, 40])
         c, _ = gen_one(rng, nops, big=(r < 0.15), degenerate=(0.15 <= r < 0.25))
         cases.append(c)
+    # forced-overlap histories (each is run 5 times by the harness and must give the same line every time)
+    conc = ["S 1 s7:7:i A,0,5 T,7,0,5:10:1:1:1 C/5:20:2:2:2/X,0/X,0 A,0,5",
+            "S 1 s7:7:i A,0,5 C/5:20:2:2:2/X,0/X,0/T,7,0",
+            "S 2 s7:7:i s2:0:p A,0,5 A,1,6 C/5:20:2:2:2+6:7:7:7:7/X,0/X,0/X,1/T,0,0 T,7,0,5:30:3:3:3",
+            "S 1 s7:7:p R,0,5 C/-/X,0/X,0/X,0/X,0 X,0,e"]
+    nc = 120 if tier == "quick" else 1500
+    for i in range(nc):
+        conc.append(gen_conc(rng, False))
+    cases += conc
+    cases += ["Sr" + c[1:] for c in conc[:(64 if tier == "quick" else 500)]]     # the same, under the race detector
+    cases += ["S 1 s7:7:i A,0,5 C/5:20:2:2:2/X,0/A,0,5/X,0", "S 1 s7:7:i A,0,5 C/e/X,0/R,0,6/X,0/X,0", "S 1 s7:7:i C/e/X,0/A,0,5"]
+    for i in range(40 if tier == "quick" else 500):
+        cases.append(gen_conc(rng, True))
     return cases
 
 
@@ -186,6 +327,8 @@ def parts(line):
 
 def nontrivial(case, out):
     calls = parts(out)[0]
+    if " C/" in case:
+        return "E" in calls or "{ok}" in calls
     return ("I" in calls) and ("E" in calls or " B" in case)
 
 
@@ -209,6 +352,13 @@ def classify(case, impl, model):
             k, ig[k].rstrip("]") if k < len(ig) else "?", mg[k].rstrip("]") if k < len(mg) else "?")
     elif idump != mdump:
         diff = "component state differs after the history: impl=%r model=%r" % (idump, mdump)
+    import re
+    if impl.startswith("NONDETERMINISTIC") or "{BAD" in ic:
+        broken = "{BAD" in impl or re.search(r"v\d+=[01]*0", impl)
+        txt = ("concurrently delivered notifications (forced overlap): " +
+               ("the calls break the bracket (more Stops/Starts than any interleaving of the handlers allows, or a "
+                "verdict bit is 0)" if broken else "the outcome depends on the schedule") + ": impl=%r" % impl[:400])
+        return ("P" if broken else "G"), txt
     if not ic.startswith("["):
         return "G", "harness did not complete the history (panic / hang / bad case): impl=%r model=%r" % (impl[:200], model[:200])
     if bad and not mbad:
@@ -250,9 +400,18 @@ def shrink(case):
                 ops2.append(",".join(a))
             yield " ".join(["S", str(k - 1)] + head[2:2 + k - 1] + ops2)
     for i, o in enumerate(ops):
+        if o.startswith("C/"):
+            g = o.split("/")
+            if len(g) > 4:
+                for j in range(2, len(g)):
+                    yield " ".join(head + ops[:i] + ["/".join(g[:j] + g[j + 1:])] + ops[i + 1:])
+            continue
         a = o.split(",")
         if a[0] == "T" and a[2] != "0":
             yield " ".join(head + ops[:i] + [",".join([a[0], a[1], "0", a[3]])] + ops[i + 1:])
+        if a[0] in "TX" and "|" in a[-1]:
+            yield " ".join(head + ops[:i] + [",".join(a[:-1] + [a[-1].split("|")[0]])] + ops[i + 1:])
+            continue
         if a[0] in "TX" and a[-1] not in ("-", "e"):
             items = a[-1].split("+")
             if len(items) > 1:
@@ -276,16 +435,31 @@ def distribution(cases, impl):
         t = c.split()
         k = int(t[1])
         d["sessions"][k] = d["sessions"].get(k, 0) + 1
+        for x in t[2:2 + k]:
+            ty = {"i": "ipoe", "p": "pppoe", "g": "l2gw"}.get(x.split(":")[2], "?")
+            d.setdefault("access_types", {})[ty] = d.setdefault("access_types", {}).get(ty, 0) + 1
         ops = t[2 + k:]
         b = min(len(ops) // 5 * 5, 40)
         d["history_len"][b] = d["history_len"].get(b, 0) + 1
         seen = {}
         reset = False
         for op in ops:
+            if op.startswith("C/"):
+                g = op.split("/")
+                kind = "C_racy" if any(m[0] in "AR" for m in g[2:]) else "C_deterministic"
+                if t[0] == "Sr":
+                    kind += "_under_race_detector"
+                d["ops"][kind] = d["ops"].get(kind, 0) + 1
+                d["ops"]["C_members"] = d["ops"].get("C_members", 0) + len(g) - 2
+                continue
             a = op.split(",")
             d["ops"][a[0]] = d["ops"].get(a[0], 0) + 1
-            if a[0] in "TX":
+            if a[0] in ("T", "X"):
                 s = a[-1]
+                if "|" in s:
+                    s, seg = s.split("|")
+                    d["snapshots"]["l2gw_segment_" + ("unavailable" if seg == "-" else "empty" if seg == "e" else "items")] = \
+                        d["snapshots"].get("l2gw_segment_" + ("unavailable" if seg == "-" else "empty" if seg == "e" else "items"), 0) + 1
                 if s == "-":
                     d["snapshots"]["unavailable"] += 1
                 elif s == "e":
